@@ -1022,10 +1022,15 @@ func runSession(l SL) Result {
 			}
 			if w, ok := p.(*v5wire.Whoareyou); ok && err == nil {
 				lw := &lastW{w: w}
-				if !tampered && pp.kind == 2 && t == pp.dest {
-					lw.chal = pk + 1
-					// the nonce must echo the request and the challenge data must be the header
-					if !bytes.Equal(w.ChallengeData, func() []byte { c := append([]byte{}, pp.data...); maskPacket(envs[t].id, c, true); return c }()) {
+				if pp.kind == 2 && t == pp.dest {
+					// WHOAREYOU packets are not authenticated; what matters for the handshake is
+					// the challenge data.  It is "the honest challenge" iff it equals the unmasked
+					// header of the packet as sent (trailing junk is ignored by the decoder).
+					hc := append([]byte{}, pp.data...)
+					maskPacket(envs[t].id, hc, true)
+					if bytes.Equal(w.ChallengeData, hc) {
+						lw.chal = pk + 1
+					} else if !tampered {
 						fails = append(fails, "WHOAREYOU challenge data is not the unmasked packet")
 					}
 				}
@@ -1162,19 +1167,30 @@ func genMsg(r *Rng, recs [][]byte) []byte {
 	return append([]byte{p.Kind()}, mustEnc(p)...)
 }
 
-func genSession(r *Rng, nops int, emit func(Sx)) {
-	const n = 3
-	var nodes []Sx
-	var recs [][]byte
-	for i := 0; i < n; i++ {
+type nodeSet struct {
+	nodes []Sx
+	recs  [][]byte
+}
+
+// node triples are expensive to build (key generation, database, record signing): a
+// small pool per generator run is shared by the session scripts
+func genNodeSet(r *Rng) nodeSet {
+	var ns nodeSet
+	for i := 0; i < 3; i++ {
 		key := genKey(r)
 		seq := uint64(r.Range(2, 300))
 		env := newNodeEnv(crypto.FromECDSA(key), seq, i)
 		rec, _ := rlp.EncodeToBytes(env.ln.Node().Record())
-		nodes = append(nodes, L(B(env.id[:]), B(crypto.FromECDSA(key)), U(env.ln.Node().Seq()), B(rec)))
-		recs = append(recs, rec)
+		ns.nodes = append(ns.nodes, L(B(env.id[:]), B(crypto.FromECDSA(key)), U(env.ln.Node().Seq()), B(rec)))
+		ns.recs = append(ns.recs, rec)
 		env.db.Close()
 	}
+	return ns
+}
+
+func genSession(r *Rng, ns nodeSet, nops int, emit func(Sx)) {
+	const n = 3
+	nodes, recs := ns.nodes, ns.recs
 	var msgs []Sx
 	nm := r.Range(2, 5)
 	for i := 0; i < nm; i++ {
@@ -1294,14 +1310,18 @@ func run(c Sx) Result {
 
 func gen(r *Rng, tier string, emit func(Sx)) {
 	r = NewRng(r.U64())
-	nrec, nhdr, nsess, nops := 3000, 1500, 250, 40
+	nrec, nhdr, nsess, nops := 2500, 1200, 200, 40
 	if tier == "thorough" {
 		nrec, nhdr, nsess, nops = 40000, 15000, 3000, 60
 	}
 	genRecords(r, nrec, emit)
 	genHeaders(r, nhdr, emit)
+	var sets []nodeSet
+	for i := 0; i < 8; i++ {
+		sets = append(sets, genNodeSet(r))
+	}
 	for i := 0; i < nsess; i++ {
-		genSession(r, nops, emit)
+		genSession(r, sets[r.Intn(len(sets))], nops, emit)
 	}
 }
 
